@@ -287,6 +287,10 @@ def c02_exit_status(obs, case=None):
             continue
         exp = {"stop": "success", "abort": "abort", "halt": "abort", "failed-pause": "abort"}[cause]
         if st != exp:
+            fa = getattr(obs.lab, "fault_at", None)
+            term = next((r for r in obs.reqs if r["kind"] in ("stop", "abort", "halt")), None)
+            if st == "fail" and fa is not None and term is not None and fa[0] >= term["step"]:
+                continue  # the injected device fault struck the clean-up that follows the termination request: the plan then dies of it, 'fail' is consistent
             tags.append(f"run-closed-after-{cause}-marked-{st}")
     # what the blocking calls raised
     for c in obs.calls:
